@@ -3,7 +3,7 @@
 #   applies the patch to a scratch copy of /repo's working tree (never to /repo itself), runs the demo
 #   (if any) and the quick tier of the named checks against the copy, prints one line per check, deletes the copy.
 #   extra env: SEEDRUN_ARGS="--scale 2" is passed to ./check
-DIR=$1; shift
+DIR=$(cd "$1" && pwd); shift
 [ -f "$DIR/patch.diff" ] || { echo "no patch.diff in $DIR"; exit 3; }
 D=$(mktemp -d /tmp/seedrun-XXXXXX)
 mkdir -p $D/repo && cp -r /repo/mystic $D/repo/mystic
